@@ -6,7 +6,8 @@
    Tables regenerated from the source: Gen/Rules.v, pinned in Model/T7Pinned.v. *)
 From Coq Require Import String List NArith Bool.
 From FIM Require Import Base.Str Gen.Rules Model.T7Pinned Model.T7Graph Model.T7Ops Model.T7WF Model.T7Steps
-     Proofs.T7Tables Proofs.T7WFRefl Proofs.T7Units Proofs.T7Api Proofs.T7Api2 Proofs.T7Api3 Proofs.T7Views Proofs.T7Refuted.
+     Model.T7Rel Proofs.T7Tables Proofs.T7WFRefl Proofs.T7Units Proofs.T7Api Proofs.T7Api2 Proofs.T7Api3 Proofs.T7Api4
+     Proofs.T7RelAdd Proofs.T7Api5 Proofs.T7Api6 Proofs.T7Hist Proofs.T7Views Proofs.T7Refuted.
 Import ListNotations.
 
 (* ---- the tables ------------------------------------------------------------------------------------------ *)
@@ -69,22 +70,74 @@ Print Assumptions C07_relabel_preserves.
 Theorem C07_closed_removal_preserves : forall g del, WF g -> closed_b g del = true -> WF (remove_set g del).
 Proof. exact WF_remove_set. Qed.
 Print Assumptions C07_closed_removal_preserves.
+(* a service port together with its link, as a unit: under service s, joined to the interface i (connect_interface) *)
+Theorem C07_add_peering_preserves :
+  forall g s i sp l, WF g -> peering_ok g s i sp l = true -> WF (add_peering g s i sp l).
+Proof. exact WF_add_peering. Qed.
+Print Assumptions C07_add_peering_preserves.
+(* ... two service ports under two services joined by one link (peer) *)
+Theorem C07_add_peering2_preserves :
+  forall g a b pa pb l, WF g -> peering2_ok g a b pa pb l = true -> WF (add_peering2 g a b pa pb l).
+Proof. exact WF_add_peering2. Qed.
+Print Assumptions C07_add_peering2_preserves.
 
 (* ---- the building calls ------------------------------------------------------------------------------------ *)
 (* FULL STATEMENT (false of the faithful model, see the ..._refuted theorems):
      forall sub fl g o drawn hint, WF g -> WF (fst (step sub fl g o drawn hint))
    PROVED for the calls listed in op_pre (Model/T7Steps.v): add_node, node.add_component, node.add_storage,
    node.add_network_service, add_network_service without interfaces, add_link, remove_link, add_child_interface,
-   rename, set_property, unset_property -- for the library with or without the proposed repairs (any `flags`), whatever
-   the outcome of the call (normal return or any exception, with the partial effects made before it).
+   rename, set_property, unset_property -- for the library with or without the repairs (any `flags`) -- and
+   connect_interface (library with the name check 8b1a93d and the rollback 7b7379b), disconnect_interface, peer,
+   unpeer, remove_child_interface; whatever the outcome of the call (normal return or any exception, with the partial
+   effects made before it, including the state peer / connect_interface leave after taking a half-made peering away).
    add_facility / add_switch: proved for the normal return (C07_add_facility_switch_returns_partial below); the state
    after their rollback of a rejected later step is a removal program and is NOT proved.
    NOT proved (covered by the wf_b evaluation on implementation snapshots only): add_network_service with interfaces,
-   port mirror, connect / disconnect, peer / unpeer, the removals other than remove_link. *)
+   port mirror, remove_node / remove_component / remove_network_service / remove_facility / remove_switch. *)
 Theorem C07_step_preserves_partial :
-  forall sub fl g o drawn hint g' out, WF g -> op_pre g o = true -> step sub fl g o drawn hint = (g', out) -> WF g'.
+  forall sub fl g o drawn hint g' out, WF g -> op_pre fl g o = true -> step sub fl g o drawn hint = (g', out) -> WF g'.
 Proof. exact step_preserves_partial. Qed.
 Print Assumptions C07_step_preserves_partial.
+
+(* the calls that make or take away a service port with its link, one by one and with their hypotheses spelled out.
+   connect_interface of an interface that is not a service port, by a library that checks the derived names: the
+   result is well-formed, except -- for a library WITHOUT the rollback 7b7379b -- when the call raised between the
+   two constructions (no id to draw / duplicate id / derived link name too long), which leaves the port without link *)
+Theorem C07_connect_interface_preserves :
+  forall fl sub s i st st' r,
+    WF (sg st) -> fl_connect_names fl = true ->
+    cls_is (sg st) s KNS = true -> cls_is (sg st) i KCP = true -> typ_is (sg st) i sServicePort = false ->
+    connect_interface fl sub s i st = (st', r) -> WF (sg st') \/ (fl_connect_undo fl = false /\ late r).
+Proof. exact api_connect. Qed.
+Print Assumptions C07_connect_interface_preserves.
+(* subs_under_dedicated: every interface-to-interface edge has a DedicatedPort end (add_child_interface enforces it) *)
+Theorem C07_disconnect_interface_preserves :
+  forall i s s' r,
+    WF (sg s) -> subs_under_dedicated (sg s) = true -> cls_is (sg s) i KCP = true -> typ_is (sg s) i sServicePort = false ->
+    disconnect_interface i s = (s', r) -> WF (sg s').
+Proof. exact api_disconnect. Qed.
+Print Assumptions C07_disconnect_interface_preserves.
+Theorem C07_remove_child_interface_preserves :
+  forall i name s s' r,
+    WF (sg s) -> subs_under_dedicated (sg s) = true -> iface_remove_child i name s = (s', r) -> WF (sg s').
+Proof. exact api_remove_child. Qed.
+Print Assumptions C07_remove_child_interface_preserves.
+(* peer: all or nothing -- when it raises after the first port was made, the handlers give back the graph before the
+   call; the derived link name must be free (peer does not look) and the two services different *)
+Theorem C07_peer_preserves :
+  forall sub a b st st' r,
+    WF (sg st) -> cls_is (sg st) a KNS = true -> cls_is (sg st) b KNS = true -> a <> b ->
+    (forall an bn, name_of (sg st) a = Some an -> name_of (sg st) b = Some bn ->
+       name_free (sg st) KLink (Some (an ++ dash ++ bn ++ S "-link")) = true) ->
+    ns_peer sub a b st = (st', r) -> WF (sg st').
+Proof. exact api_peer. Qed.
+Print Assumptions C07_peer_preserves.
+(* unpeer (after 24d5e04): every peering between the two services is taken away, ports and link *)
+Theorem C07_unpeer_preserves :
+  forall a b st st' r,
+    WF (sg st) -> subs_under_dedicated (sg st) = true -> ns_unpeer a b st = (st', r) -> WF (sg st').
+Proof. exact api_unpeer. Qed.
+Print Assumptions C07_unpeer_preserves.
 
 (* constructor level (used by the calls above AND by the unproved add_component / add_facility / add_switch):
    the sliver additions create node + owner edge together (abc_property_graph.py:1242-1301) -- the pair
@@ -211,6 +264,23 @@ Definition ex_hist : list hstep :=
 Example C07_histories_hypothesis_satisfiable :
   wf_b ex_base = true /\ pre_along false flags_off ex_base ex_hist = true /\ pre_along false flags_on ex_base ex_hist = true /\
   length (gnodes (run_hist false flags_on ex_base ex_hist)) = 20 /\ wf_b (run_hist false flags_on ex_base ex_hist) = true.
+Proof. vm_compute. repeat split. Qed.
+(* ... and by a history of the calls that make and take away service ports: two connections (one of a sub-interface),
+   a peering, and their removal by disconnect_interface, unpeer and remove_child_interface; every call returns *)
+Definition ex_hist2 : list hstep :=
+  [(OAddNS (S "s2") None (S "L2Bridge") [], [S "v1"], []);
+   (OAddNS (S "s3") None (S "L2Bridge") [], [S "v2"], []);
+   (OAddSub (S "u3") (S "sub1") None true, [S "v3"], []);
+   (OConnect (S "v1") (S "u3"), [S "v4"; S "v5"], []);
+   (OConnect (S "v1") (S "v3"), [S "v6"; S "v7"], []);
+   (OPeer (S "v1") (S "v2"), [S "v8"; S "v9"; S "v10"], []);
+   (ODisconnect (S "v1") (S "u3"), [], []);
+   (OUnpeer (S "v1") (S "v2"), [], []);
+   (ORemoveSub (S "u3") (S "sub1"), [], [])].
+Example C07_histories_hypothesis_satisfiable_ports :
+  pre_along false flags_on ex_base ex_hist2 = true /\
+  map (fun k => length (gnodes (run_hist false flags_on ex_base (firstn k ex_hist2)))) [3; 6; 7; 8; 9] = [14; 21; 19; 16; 13] /\
+  wf_b (run_hist false flags_on ex_base ex_hist2) = true.
 Proof. vm_compute. repeat split. Qed.
 (* a closed removal set that is not trivial: the component c1 with its service, ports and sub-interface *)
 Example C07_closed_removal_satisfiable :
